@@ -519,7 +519,7 @@ func init() {
 	Register(&Prop{
 		ID: "C02",
 		Rule: "cases: (a) the exhaustive single-field and field-pair values of C01 with benign strings, (b) exhaustive string-bearing position (found by reflection: ids, IRIs in item and list positions, type, mediaType, formerType, hrefLang, units, rel/href, publicKey id/owner/pem, language tags, text, source) x hostile string (raw and as the tail of an absolute URL), " +
-			"(c) seeded random nested values with 2-3 hostile strings planted; every MarshalJSON output is parsed by a strict duplicate-detecting reader and matched member by member against the Go value; distinct = fingerprint of (value shape, position, string class); non-trivial = a hostile (non-plain) class or a property beyond id/type",
+			"(b') every arrangement (length 1-3) of members that have nothing to say (empty IRI, empty object, nil, empty link) and ordinary members in list-valued positions, (c) seeded random nested values with 2-3 hostile strings planted; every MarshalJSON output is parsed by a strict duplicate-detecting reader and matched member by member against the Go value; distinct = fingerprint of (value shape, position, string class); non-trivial = a hostile (non-plain) class or a property beyond id/type",
 		Layers: func(tier string) []Layer {
 			return []Layer{
 				{Name: "benign-single", N: len(singleJSON), Exhaustive: true, Run: func(c *Ctx, idx int) {
@@ -538,6 +538,18 @@ func init() {
 					x := g.BuildPair(pc, false)
 					c.Distinct("benign|"+pc.String(), true)
 					emitAll(c, x, pc.String(), "benign", "", "")
+				}},
+				{Name: "degenerate-members", N: len(degenArrangements) * len(degenHosts), Exhaustive: true, Run: func(c *Ctx, idx int) {
+					arr := degenArrangements[idx/len(degenHosts)]
+					host := degenHosts[idx%len(degenHosts)]
+					x, label := host.Build(buildDegenList(arr))
+					label += " := [" + strings.Join(arr, ",") + "]"
+					c.Distinct("degenerate|"+label, true)
+					c.Count("degenerate", 1)
+					if idx%700 == 0 {
+						c.Sample(map[string]any{"case": label})
+					}
+					emitAll(c, x, label, "degenerate", "", "")
 				}},
 				{Name: "hostile-single", N: len(allStringPos) * nh * 2, Exhaustive: true, Run: func(c *Ctx, idx int) {
 					sp := allStringPos[idx/(nh*2)]
@@ -607,6 +619,86 @@ func init() {
 			"a member for an unset property is tolerated when it carries the zero value (totalItems:0, closed:false)",
 		},
 	})
+}
+
+// degenerate members: items that have nothing to say, in every position of short lists
+var degenAlphabet = []string{"empty-iri", "empty-obj", "empty-objv", "nil", "empty-link", "iri", "obj"}
+
+var degenArrangements = func() [][]string {
+	var out [][]string
+	n := len(degenAlphabet)
+	for l := 1; l <= 3; l++ {
+		tot := 1
+		for i := 0; i < l; i++ {
+			tot *= n
+		}
+		for k := 0; k < tot; k++ {
+			a := make([]string, l)
+			x := k
+			for i := range a {
+				a[i] = degenAlphabet[x%n]
+				x /= n
+			}
+			out = append(out, a)
+		}
+	}
+	return out
+}()
+
+func buildDegenList(arr []string) vocab.ItemCollection {
+	out := vocab.ItemCollection{}
+	for i, a := range arr {
+		switch a {
+		case "empty-iri":
+			out = append(out, vocab.IRI(""))
+		case "empty-obj":
+			out = append(out, &vocab.Object{})
+		case "empty-objv":
+			out = append(out, vocab.Object{})
+		case "nil":
+			out = append(out, nil)
+		case "empty-link":
+			out = append(out, &vocab.Link{})
+		case "iri":
+			out = append(out, vocab.IRI(fmt.Sprintf("https://example.com/m/%d", i)))
+		case "obj":
+			out = append(out, &vocab.Object{ID: vocab.IRI(fmt.Sprintf("https://example.com/o/%d", i)), Type: vocab.NoteType})
+		}
+	}
+	return out
+}
+
+type degenHost struct {
+	Name  string
+	Build func(l vocab.ItemCollection) (any, string)
+}
+
+var degenHosts = []degenHost{
+	{"Object.to", func(l vocab.ItemCollection) (any, string) {
+		return &vocab.Object{ID: "https://example.com/top", Type: vocab.NoteType, To: l}, "Object.to"
+	}},
+	{"Object.tag+published", func(l vocab.ItemCollection) (any, string) {
+		return &vocab.Object{ID: "https://example.com/top", Type: vocab.NoteType, Tag: l, Published: time.Unix(1600000000, 0).UTC()}, "Object.tag (+published)"
+	}},
+	{"Object.audience", func(l vocab.ItemCollection) (any, string) {
+		return &vocab.Object{ID: "https://example.com/top", Type: vocab.NoteType, Audience: l}, "Object.audience"
+	}},
+	{"Object.attachment<list>", func(l vocab.ItemCollection) (any, string) {
+		return &vocab.Object{ID: "https://example.com/top", Type: vocab.NoteType, Attachment: l}, "Object.attachment<list>"
+	}},
+	{"Activity.bcc+object<list>", func(l vocab.ItemCollection) (any, string) {
+		return &vocab.Activity{ID: "https://example.com/top", Type: vocab.CreateType, BCC: l, Object: l}, "Activity.bcc and .object<list>"
+	}},
+	{"OrderedCollection.orderedItems", func(l vocab.ItemCollection) (any, string) {
+		return &vocab.OrderedCollection{ID: "https://example.com/top", Type: vocab.OrderedCollectionType, OrderedItems: l}, "OrderedCollection.orderedItems"
+	}},
+	{"CollectionPage.items", func(l vocab.ItemCollection) (any, string) {
+		return &vocab.CollectionPage{ID: "https://example.com/top", Type: vocab.CollectionPageType, Items: l}, "CollectionPage.items"
+	}},
+	{"Actor.streams", func(l vocab.ItemCollection) (any, string) {
+		return &vocab.Actor{ID: "https://example.com/top", Type: vocab.PersonType, Streams: l}, "Actor.streams"
+	}},
+	{"top-level list", func(l vocab.ItemCollection) (any, string) { return l, "top-level ItemCollection" }},
 }
 
 func uniqStrings(s []string) []string {
